@@ -401,9 +401,11 @@ pub fn process<I: BufRead, O: Write>(
                             insert_it = false;
                         }
                         match s.next() {
-                            Some(string) => {
+                            Some(_) => {
+                                // The comment's text is taken from the whole rest of the line: a //
+                                // inside it is not a line comment and must not hide its */
                                 in_multiline_comments = true;
-                                remaining = string;
+                                remaining = &remaining[s2.len() + 2..];
                             }
                             _ => break,
                         }
@@ -414,9 +416,11 @@ pub fn process<I: BufRead, O: Write>(
                         insert_it = false;
                     }
                     match s.next() {
-                        Some(string) => {
+                        Some(_) => {
+                            // The comment's text is taken from the whole rest of the line: a //
+                            // inside it is not a line comment and must not hide its */
                             in_multiline_comments = true;
-                            remaining = string;
+                            remaining = &remaining[s2.len() + 2..];
                         }
                         _ => break,
                     }
